@@ -166,6 +166,10 @@ fn build_patches_recursive<T: SizedType>(
         (StateTreeSkeleton::FnCall(old_children), StateTreeSkeleton::FnCall(new_children)) => {
             // First, calculate patches for all child nodes (to avoid side effects in score calculation)
             let mut child_patches_map = Vec::new();
+            // A pair of identical children scores one more than a partial match carrying the same
+            // number of cells, so that an unchanged sibling keeps its own state. Cell counts are
+            // scaled so that these bonuses never outweigh a carried cell.
+            let scale = (2 * (old_children.len() + new_children.len() + 1)) as f64;
             for old_idx in 0..old_children.len() {
                 for new_idx in 0..new_children.len() {
                     let child_old_path = [old_path.clone(), vec![old_idx]].concat();
@@ -178,7 +182,17 @@ fn build_patches_recursive<T: SizedType>(
                         child_old_path,
                         child_new_path,
                     );
-                    child_patches_map.push(((old_idx, new_idx), patches, cells as f64));
+                    let bonus = if nodes_match(&old_children[old_idx], &new_children[new_idx]) {
+                        1.0
+                    } else {
+                        0.0
+                    };
+                    let score = if cells > 0 {
+                        cells as f64 * scale + bonus
+                    } else {
+                        0.0
+                    };
+                    child_patches_map.push(((old_idx, new_idx), patches, cells, score));
                 }
             }
 
@@ -192,8 +206,8 @@ fn build_patches_recursive<T: SizedType>(
                 |(oid, _old), (nid, _new)| {
                     child_patches_map
                         .iter()
-                        .find(|((o, n), _, _)| o == oid && n == nid)
-                        .map(|(_, _, score)| *score)
+                        .find(|((o, n), _, _, _)| o == oid && n == nid)
+                        .map(|(_, _, _, score)| *score)
                         .unwrap_or(0.0)
                 },
             );
@@ -206,12 +220,12 @@ fn build_patches_recursive<T: SizedType>(
                     old_index,
                     new_index,
                 } = result
-                    && let Some((_, patches, cells)) = child_patches_map
+                    && let Some((_, patches, cells, _)) = child_patches_map
                         .iter()
-                        .find(|((o, n), _, _)| o == old_index && n == new_index)
+                        .find(|((o, n), _, _, _)| o == old_index && n == new_index)
                 {
                     c_patches.extend(patches.iter().cloned());
-                    c_cells += *cells as usize;
+                    c_cells += *cells;
                 }
             }
 
